@@ -224,6 +224,33 @@ func (g c04Graph) build() *gen.World {
 	return w
 }
 
+var c04SelfPositions = []string{"not", "additionalProperties", "items", "additionalItems", "allOf/0", "properties/p", "definitions/inner", "items/1"}
+
+func c04SelfNestedWorld(k int) *gen.World {
+	pos := c04SelfPositions[k]
+	inner := map[string]interface{}{"title": "inner", "properties": map[string]interface{}{"x": map[string]interface{}{"$ref": "#/definitions/a/" + pos}}}
+	a := map[string]interface{}{"title": "a"}
+	switch pos {
+	case "allOf/0":
+		a["allOf"] = []interface{}{inner}
+	case "properties/p":
+		a["properties"] = map[string]interface{}{"p": inner}
+	case "definitions/inner":
+		a["definitions"] = map[string]interface{}{"inner": inner}
+	case "items/1":
+		a["items"] = []interface{}{map[string]interface{}{"title": "first"}, inner}
+	default:
+		a[pos] = inner
+	}
+	root := map[string]interface{}{"swagger": "2.0", "info": map[string]interface{}{"title": "t", "version": "1"},
+		"definitions": map[string]interface{}{"a": a, "user": map[string]interface{}{"title": "user", "properties": map[string]interface{}{"u": map[string]interface{}{"$ref": "#/definitions/a"}}}},
+		"parameters": map[string]interface{}{"p0": map[string]interface{}{"name": "p", "in": "body", "schema": map[string]interface{}{"$ref": "#/definitions/a"}}},
+		"responses":  map[string]interface{}{"r0": map[string]interface{}{"description": "r", "schema": map[string]interface{}{"$ref": "#/definitions/a"}}},
+		"paths": map[string]interface{}{"/a": map[string]interface{}{"get": map[string]interface{}{"responses": map[string]interface{}{"200": map[string]interface{}{"$ref": "#/responses/r0"}}}}}}
+	return &gen.World{Root: gen.RootURL, Features: map[string]int{}, Slots: 5, Docs: map[string]interface{}{gen.RootURL: root,
+		c04Other: map[string]interface{}{"definitions": map[string]interface{}{}, "responses": map[string]interface{}{"r0": map[string]interface{}{"description": "r"}}, "paths": map[string]interface{}{"/a": map[string]interface{}{}}}}}
+}
+
 // enumeration sizes
 func c04GraphCount(n int) int {
 	c := 1
@@ -389,6 +416,12 @@ func c04Run(env *core.Env, idx int) core.CaseResult {
 		desc = map[string]interface{}{"nodes": g.n, "slots": g.slots, "id": g.idVar, "two_documents": g.twoDocs, "parameter_variant": g.pVar, "response_variant": g.rVar, "pathitem_variant": g.iVar}
 		res.Count("part.enumerated", 1)
 		res.Count("id."+g.idVar, 1)
+	} else if idx-ns < len(c04SelfPositions) {
+		// a $ref that sits inside the very sub-schema it designates (#/definitions/a/not from within a.not), and a later use of a
+		w = c04SelfNestedWorld(idx - ns)
+		desc = map[string]interface{}{"constructed": "ref inside the sub-schema it designates", "position": c04SelfPositions[idx-ns]}
+		res.Count("part.random", 1)
+		res.Count("self-nested-position", 1)
 	} else {
 		rng := core.Rng(env.Seed, "C04", idx)
 		o := gen.WorldOpts{NDocs: 1 + rng.Intn(4), Cyclic: true, Nested: rng.Intn(2) == 0, Chains: rng.Intn(2) == 0, HostileNames: rng.Intn(4) == 0,
@@ -518,7 +551,7 @@ func c04Run(env *core.Env, idx int) core.CaseResult {
 }
 
 func init() {
-	floors := []string{"part.enumerated", "part.random", "graph.cyclic", "graph.acyclic", "returned-error", "returned-ok", "steps-observed", "world-with-null-document"}
+	floors := []string{"part.enumerated", "part.random", "graph.cyclic", "graph.acyclic", "returned-error", "returned-ok", "steps-observed", "world-with-null-document", "self-nested-position"}
 	for _, e := range c04Entries {
 		floors = append(floors, "entry."+e)
 	}
